@@ -241,6 +241,14 @@ def judge_play(ctx, mid, model, pattern, oversleep, meta_messages, seed):
 
                 def now(self):
                     return self.c.now
+            class Decoy:
+                # ... and with a clock of its own supplied, play() has no business reading the system clock: here that one
+                # runs three times as fast, from another epoch (sleeping still moves the supplied clock)
+                sleep = clock.sleep
+
+                def time(self):
+                    return clock.now * 3 + 777.0
+            mf.time = Decoy()
             gen = mid.play(meta_messages=meta_messages, now=View(clock).now)
         else:
             gen = mid.play(meta_messages=meta_messages, now=clock.time)
